@@ -1,5 +1,5 @@
 //@unit passthru
-//@props C03 C05
+//@props C03 C05 C02 C11
 // U-passthru: real (namespaced) SVG takes the pass-through route (src/transform.rs):
 // is_real_svg against a spec function written from the property statement, process_events returns
 // the input events unchanged and touches nothing but `real_svg`, postprocess writes exactly the
@@ -9,11 +9,13 @@
 use vstd::prelude::*;
 //@prelude fmt_macro
 verus! {
-//@prelude std_specs seqlemmas
+//@prelude std_specs qxml seqlemmas
 
 #[verifier::external_body] pub struct OutputList { _p: u8 }
 #[verifier::external_body] pub struct OutputEvent { _p: u8 }
-#[verifier::external_body] pub struct InputEvent { _p: u8 }
+//@item src/events.rs :: struct InputEvent
+//@ replace[R-opaque-type] <<<Event<'static>>>> => <<<Event>>>
+//@end
 impl Clone for InputEvent { #[verifier::external_body] fn clone(&self) -> (r: Self) ensures r == *self { unimplemented!() } }
 #[verifier::external_body] pub struct BoundingBox { _p: u8 }
 impl Clone for BoundingBox { #[verifier::external_body] fn clone(&self) -> (r: Self) ensures r == *self { unimplemented!() } }
@@ -51,16 +53,29 @@ pub uninterp spec fn elem_of(ev: InputEvent) -> SvgElement;      // the element 
 pub uninterp spec fn attr_of(el: SvgElement, key: Seq<char>) -> Option<Seq<char>>;
 pub uninterp spec fn into_output(input: InputList) -> OutputList;
 pub uninterp spec fn all_events_of(el: SvgElement, ctx: TransformerContext) -> InputList;
+#[verifier::external_body] pub struct Reader { _p: u8 }
+pub uninterp spec fn doc_of(r: Reader) -> InputList;
 
 pub open spec fn svg_ns() -> Seq<char> { "http://www.w3.org/2000/svg"@ }
 
-/// From the property statement: the document's outermost (first) element is <svg> and declares the
-/// SVG namespace.
+/// an event which opens an element
+pub open spec fn starts_element(ev: InputEvent) -> bool { ev.event is Start || ev.event is Empty }
+/// (document) index of the event which closes the element opened by `ev`
+pub open spec fn end_of(ev: InputEvent) -> int { match ev.alt_idx { Some(a) => a as int, None => ev.index as int } }
+pub open spec fn element_after(evs: Seq<InputEvent>, end: int) -> bool {
+    exists|j: int| 0 <= j < evs.len() && starts_element(#[trigger] evs[j]) && evs[j].index > end
+}
+
+/// From the property statement: the list's OUTERMOST element is <svg> and declares the SVG
+/// namespace - its first element is that <svg>, and no element starts after the <svg> has ended
+/// (otherwise the list is svgdx content which embeds a namespaced <svg> among other elements,
+/// and those other elements are processed as usual).
 pub open spec fn spec_real_svg(evs: Seq<InputEvent>) -> bool {
     exists|k: int| 0 <= k < evs.len() && #[trigger] is_elem(evs[k])
         && (forall|j: int| 0 <= j < k ==> !#[trigger] is_elem(evs[j]))
         && elem_of(evs[k]).name@ == "svg"@
         && attr_of(elem_of(evs[k]), "xmlns"@) == Some(svg_ns())
+        && !element_after(evs, end_of(evs[k]))
 }
 
 #[verifier::external_body]
@@ -103,10 +118,25 @@ impl TransformerContext {
 //@ ensures
 //@ - r is None <==> self.element_stack@.len() == 0
 //@end
+    /// R-clone: `set_events(input.events.clone())` (stores a copy of the document's events for later slicing)
+    #[verifier::external_body]
+    pub fn set_events(&mut self, input: &InputList) ensures final(self).real_svg == old(self).real_svg { unimplemented!() }
     #[verifier::external_body]
     pub fn update_element(&mut self, el: &SvgElement) { unimplemented!() }
     #[verifier::external_body]
     pub fn set_prev_element(&mut self, el: &SvgElement) { unimplemented!() }
+}
+
+impl InputList {
+//@item src/events.rs :: impl InputList :: fn has_element_after
+//@ ensures
+//@ - r == element_after(self.events@, end as int)     @@C11.detect.element_after
+//@ loop 1
+//@ iter it
+//@ invariant
+//@ - self.events@ == it.history@.map(|i: int, e: &InputEvent| *e) + vstd::std_specs::iter::IteratorSpec::remaining(&it.iter).map(|i: int, e: &InputEvent| *e)
+//@ - forall|j: int| 0 <= j < it.index@ ==> !(starts_element(#[trigger] self.events@[j]) && self.events@[j].index > end)
+//@end
 }
 
 //@rewrite strlit
@@ -114,7 +144,7 @@ impl TransformerContext {
 //@ replace[R-inline] <<<events.iter()>>> => <<<events.events.iter()>>>
 //@ replace[R-tryfrom] <<<SvgElement::try_from(ev.clone())>>> => <<<svg_element_try_from(ev.clone())>>>
 //@ ensures
-//@ - r == spec_real_svg(events.events@)     @@C03.detect.spec @@C05.detect.spec
+//@ - r == spec_real_svg(events.events@)     @@C03.detect.spec @@C05.detect.spec @@C02.detect.spec @@C11.detect.outermost_only
 //@ loop 1
 //@ iter it
 //@ invariant
@@ -128,7 +158,9 @@ impl TransformerContext {
 #[verifier::external_body]
 pub fn tagify_indexed(input: InputList) -> Result<TagList> { unimplemented!() }
 #[verifier::external_body]
-pub fn process_tags(tags: &mut TagList, context: &mut TransformerContext, idx_output: &mut OutMap, bbb: &mut BoundingBoxBuilder) -> Result<Option<BoundingBox>> { unimplemented!() }
+pub fn process_tags(tags: &mut TagList, context: &mut TransformerContext, idx_output: &mut OutMap, bbb: &mut BoundingBoxBuilder) -> (r: Result<Option<BoundingBox>>)
+    ensures final(context).real_svg == old(context).real_svg      // (every nested generator ends in process_events: same clause, by induction on the nesting)
+{ unimplemented!() }
 /// R-abstract: `for (_idx, events) in idx_output { output.extend(&events); }`
 #[verifier::external_body]
 pub fn flatten_outputs(idx_output: OutMap, output: &mut OutputList) { unimplemented!() }
@@ -147,9 +179,8 @@ pub open spec fn only_real_svg_changed(pre: TransformerContext, post: Transforme
 //@ replace[R-abstract] <<<    for (_idx, events) in idx_output {\n        output.extend(&events);\n    }>>> => <<<    flatten_outputs(idx_output, &mut output);>>>
 //@ ensures
 //@ - spec_real_svg(input.events@) ==> r is Ok && r->Ok_0.0 == into_output(input) && r->Ok_0.1 is None     @@C03.events.identity @@C05.events.identity
-//@ - spec_real_svg(input.events@) ==> only_real_svg_changed(*old(context), *final(context))     @@C03.events.frame
-//@ - spec_real_svg(input.events@) && old(context).element_stack@.len() == 0 ==> final(context).real_svg     @@C03.events.mark
-//@ - spec_real_svg(input.events@) && old(context).element_stack@.len() > 0 ==> final(context).real_svg == old(context).real_svg     @@C02.root.nested_real_svg_keeps_root @@C05.root.nested_real_svg_keeps_root
+//@ - spec_real_svg(input.events@) ==> *final(context) == *old(context)     @@C03.events.frame
+//@ - final(context).real_svg == old(context).real_svg     @@C02.root.only_the_document_decides @@C03.events.nested_never_marks @@C05.root.only_the_document_decides
 //@end
 
 // ------------------------------------------------------------------------------ postprocess
@@ -177,6 +208,19 @@ impl Transformer {
     fn write_auto_styles(&self, events: &mut OutputList, writer: &mut Writer) -> (r: Result<()>)
         ensures final(writer).log() == old(writer).log().push(WriteOp::AutoStyles)
     { unimplemented!() }
+
+    /// the document read from the input: a deterministic function of the reader
+    #[verifier::external_body]
+    pub fn read_document(reader: &mut Reader) -> (r: Result<InputList>)
+        ensures r is Ok ==> r->Ok_0 == doc_of(*old(reader))
+    { unimplemented!() }
+//@item src/transform.rs :: impl Transformer :: fn transform
+//@ replace[R-opaque-type] <<<reader: &mut dyn BufRead, writer: &mut dyn Write>>> => <<<reader: &mut Reader, writer: &mut Writer>>>
+//@ replace[R-reader] <<<InputList::from_reader(reader)?>>> => <<<Transformer::read_document(reader)?>>>
+//@ replace[R-clone] <<<self.context.set_events(input.events.clone());>>> => <<<self.context.set_events(&input);>>>
+//@ ensures
+//@ - r is Ok ==> final(self).context.real_svg == spec_real_svg(doc_of(*old(reader)).events@)     @@C02.root.synthesis_iff_document_not_real @@C03.document.real_iff_outermost_svg
+//@end
 
 //@item src/transform.rs :: impl Transformer :: fn postprocess
 //@ replace[R-opaque-type] <<<writer: &mut dyn Write,>>> => <<<writer: &mut Writer,>>>
